@@ -848,4 +848,44 @@ theorem Cfg.ok_of_quarter_slot (cfg : Cfg) (hr : 0 < cfg.rate) (hP : cfg.P ≤ c
     exact this
   omega
 
+/-- **Silence bound**: at every event the time since the end of the last transmission is at most
+`Tslot + P` — the bus is never silent for longer (the longest silence is the unanswered GAP request). -/
+theorem ring2_silence {cfg : Cfg} {n : Net} {v : View} (h : RInv cfg n v) (hok : cfg.Ok) (i : Nat) (now : Int)
+    (e : EvOk cfg n v i now) : now ≤ n.bus.txEnd v.tr + (cfg.slot : Nat) + (cfg.P : Nat) := by
+  have hP := h.ph
+  have hgx := e.gapX
+  have hgy := e.gapY
+  have hc2 := cfg.ce2 hok.rate
+  have hc5 := cfg.ce5 hok.rate
+  have hc0 := cfg.ce_pos hok.rate 0
+  rw [h.bus.txEnd_eq]
+  unfold PhaseOk at hP
+  cases hph : v.ph with
+  | hold p1 =>
+    rw [hph] at hP
+    obtain ⟨hs1, hb, -, -, -, -, -, -, -, -, htb, hp1, hsx, hA⟩ := hP
+    have hlen : v.tr.bytes.length = 3 := by rw [hb]; rfl
+    rw [hlen]
+    show now ≤ _ + ((cfg.ce 2 : Nat) : Int) + _ + _
+    omega
+  | gap g =>
+    rw [hph] at hP
+    obtain ⟨hs1, hb, -, -, -, -, hq, hsx, -⟩ := hP
+    have hlen : v.tr.bytes.length = 6 := by rw [hb]; exact statusRequestBytes_length _ _
+    rw [hlen]
+    show now ≤ _ + ((cfg.ce 5 : Nat) : Int) + _ + _
+    omega
+  | pass =>
+    rw [hph] at hP
+    obtain ⟨hs1, hb, -, -, -, hY⟩ := hP
+    have hlen : v.tr.bytes.length = 3 := by rw [hb]; rfl
+    have hseenY : n.bus.seen.getD (oth v.x) 0 < v.tr.start + ((cfg.ce 2 : Nat) : Int) := by
+      have := vis_lt_full _ (ce_monoI cfg) v.tr.bytes.length v.tr.start (n.bus.seen.getD (oth v.x) 0)
+        (by rw [hlen]; decide) hY.2.2.1
+      rw [hlen] at this
+      exact this
+    rw [hlen]
+    show now ≤ _ + ((cfg.ce 2 : Nat) : Int) + _ + _
+    omega
+
 end PV
